@@ -477,5 +477,17 @@ def run_cases(part, bin_path, cases, judge, jctx, chunk=40000):
                 if not sub:
                     resps = []
                     break
+        nostd = os.path.basename(os.path.dirname(os.path.dirname(bin_path))).endswith("-nostd")
         for c, (o, n) in zip(sub, spans):
+            nv = len(part.violations)
             judge(part, c, resps[o:o + n], jctx)
+            if nostd:
+                # second executor build: the library without its "std" feature (DESIGN 8.2)
+                part.count("cases_on_no_std_build")
+                for v in part.violations[nv:]:
+                    v["sig"]["lib"] = "no_std"
+                    if isinstance(v["sig"].get("class"), dict):
+                        v["sig"]["class"]["lib"] = "no_std"
+                    v["text"] = "[library built without std] " + v["text"]
+                    if isinstance(v.get("replay"), dict):
+                        v["replay"]["bin"] = os.path.basename(bin_path) + "_nostd"
